@@ -25,6 +25,29 @@ pub struct TwoHopCase {
     pub v2: bool,
     /// 0 = well-formed; 1 = same pool twice; 2 = second leg's direction flipped (legs do not share the intermediate mint)
     pub malformed: u8,
+    /// bit 0 / bit 1: the Oracle account of leg one / leg two is passed READ-ONLY, in the two-hop and in that leg's single swap alike
+    #[serde(default)]
+    pub readonly_oracle: u8,
+}
+
+/// the instruction with the named account demoted to read-only
+fn demote(mut ix: solana_program::instruction::Instruction, key: &Pubkey) -> solana_program::instruction::Instruction {
+    for m in ix.accounts.iter_mut() {
+        if m.pubkey == *key {
+            m.is_writable = false;
+        }
+    }
+    ix
+}
+
+fn demote_oracles(w: &World, mut ix: solana_program::instruction::Instruction, c: &TwoHopCase, p_one: usize, p_two: usize) -> solana_program::instruction::Instruction {
+    if c.readonly_oracle & 1 != 0 {
+        ix = demote(ix, &w.pools[p_one].oracle);
+    }
+    if c.readonly_oracle & 2 != 0 {
+        ix = demote(ix, &w.pools[p_two].oracle);
+    }
+    ix
 }
 
 pub struct Setup {
@@ -94,10 +117,17 @@ thread_local! {
 }
 
 fn single(w: &mut World, pool: usize, user: usize, sp: &SwapParams, v2: bool) -> Result<(u64, u64), u64> {
+    single_ro(w, pool, user, sp, v2, false)
+}
+
+fn single_ro(w: &mut World, pool: usize, user: usize, sp: &SwapParams, v2: bool, readonly_oracle: bool) -> Result<(u64, u64), u64> {
     let pl = w.pools[pool].clone();
     let (mi, mo) = if sp.a_to_b { (pl.mint_a.key, pl.mint_b.key) } else { (pl.mint_b.key, pl.mint_a.key) };
     let (i0, o0) = (bal(w, user, &mi), bal(w, user, &mo));
-    let ix = if v2 { w.ix_swap_v2(pool, user, sp) } else { w.ix_swap(pool, user, sp) };
+    let mut ix = if v2 { w.ix_swap_v2(pool, user, sp) } else { w.ix_swap(pool, user, sp) };
+    if readonly_oracle {
+        ix = demote(ix, &pl.oracle);
+    }
     let o = w.exec(&ix);
     if !o.ok() {
         return Err(o.code().unwrap());
@@ -139,8 +169,11 @@ pub fn check_case(c: &TwoHopCase, l: &mut Local, bounds_only: bool) -> Result<()
     // --- clone A: the two-hop ---
     let mut wa = s.h.w.clone();
     let (in0, mid0, out0) = (bal(&wa, s.user, &s.m_in), bal(&wa, s.user, &s.m_mid), bal(&wa, s.user, &s.m_out));
-    let ix = wa.ix_two_hop(s.p_one, s.p_two, s.user, p, s.v2);
+    let ix = demote_oracles(&wa, wa.ix_two_hop(s.p_one, s.p_two, s.user, p, s.v2), c, s.p_one, s.p_two);
     let oa = wa.exec(&ix);
+    if c.readonly_oracle != 0 {
+        l.count("oracle_passed_read_only");
+    }
     if c.malformed != 0 {
         l.count(if c.malformed == 1 { "malformed/same_pool_twice" } else { "malformed/no_shared_intermediate" });
         if oa.ok() {
@@ -158,10 +191,11 @@ pub fn check_case(c: &TwoHopCase, l: &mut Local, bounds_only: bool) -> Result<()
     SINGLE_EVENTS.with(|e| e.borrow_mut().clear());
     let mut wb = s.h.w.clone();
     let neutral = |amount: u64, a_to_b: bool, limit: u128, exact_in: bool| SwapParams { amount, threshold: SwapParams::neutral_threshold(exact_in), sqrt_price_limit: limit, exact_in, a_to_b };
+    let (ro1, ro2) = (c.readonly_oracle & 1 != 0, c.readonly_oracle & 2 != 0);
     let singles: Result<((u64, u64), (u64, u64)), (u8, u64)> = if p.exact_in {
-        match single(&mut wb, s.p_one, s.user, &neutral(p.amount, p.a_to_b_one, p.limit_one, true), s.v2) {
+        match single_ro(&mut wb, s.p_one, s.user, &neutral(p.amount, p.a_to_b_one, p.limit_one, true), s.v2, ro1) {
             Err(e) => Err((1, e)),
-            Ok(r1) => match single(&mut wb, s.p_two, s.user, &neutral(r1.1, p.a_to_b_two, p.limit_two, true), s.v2) {
+            Ok(r1) => match single_ro(&mut wb, s.p_two, s.user, &neutral(r1.1, p.a_to_b_two, p.limit_two, true), s.v2, ro2) {
                 Err(e) => Err((2, e)),
                 Ok(r2) => Ok((r1, r2)),
             },
@@ -169,11 +203,11 @@ pub fn check_case(c: &TwoHopCase, l: &mut Local, bounds_only: bool) -> Result<()
     } else {
         // learn leg two's input by a dry run, then execute leg one (exact-out of that amount) and leg two
         let mut dry = s.h.w.clone();
-        match single(&mut dry, s.p_two, s.user, &neutral(p.amount, p.a_to_b_two, p.limit_two, false), s.v2) {
+        match single_ro(&mut dry, s.p_two, s.user, &neutral(p.amount, p.a_to_b_two, p.limit_two, false), s.v2, ro2) {
             Err(e) => Err((2, e)),
-            Ok(d2) => match single(&mut wb, s.p_one, s.user, &neutral(d2.0, p.a_to_b_one, p.limit_one, false), s.v2) {
+            Ok(d2) => match single_ro(&mut wb, s.p_one, s.user, &neutral(d2.0, p.a_to_b_one, p.limit_one, false), s.v2, ro1) {
                 Err(e) => Err((1, e)),
-                Ok(r1) => match single(&mut wb, s.p_two, s.user, &neutral(p.amount, p.a_to_b_two, p.limit_two, false), s.v2) {
+                Ok(r1) => match single_ro(&mut wb, s.p_two, s.user, &neutral(p.amount, p.a_to_b_two, p.limit_two, false), s.v2, ro2) {
                     Err(e) => Err((2, e)),
                     Ok(r2) => Ok((r1, r2)),
                 },
@@ -190,6 +224,10 @@ pub fn check_case(c: &TwoHopCase, l: &mut Local, bounds_only: bool) -> Result<()
         (Err((leg, code)), true) => return Err(format!("two-hop succeeded although leg {leg} fails on its own with {code}")),
         (Err((leg, code)), false) => {
             l.count(&format!("both_fail/leg{leg}/{code}"));
+            if c.readonly_oracle != 0 && matches!(code, 3006 | 2000) {
+                l.count("read_only_oracle_refused_by_two_hop_and_single_alike");
+                l.nontrivial(hash_of(c));
+            }
             return Ok(());
         }
         _ => {}
@@ -251,7 +289,7 @@ pub fn check_case(c: &TwoHopCase, l: &mut Local, bounds_only: bool) -> Result<()
     for t in [realised.saturating_sub(1), realised, realised.saturating_add(1)] {
         let mut w = s.h.w.clone();
         let pt = TwoHopParams { threshold: t, ..p.clone() };
-        let ix = w.ix_two_hop(s.p_one, s.p_two, s.user, &pt, s.v2);
+        let ix = demote_oracles(&w, w.ix_two_hop(s.p_one, s.p_two, s.user, &pt, s.v2), c, s.p_one, s.p_two);
         let ok = w.exec(&ix).ok();
         let admits = if p.exact_in { t <= realised } else { t >= realised };
         if ok != admits {
@@ -342,13 +380,13 @@ pub fn case_strategy() -> BoxedStrategy<TwoHopCase> {
         .prop_map(|v| v.into_iter().flatten().collect::<Vec<Op>>()),
         prop::collection::vec(op_strategy(false), 0..=8),
         (any::<bool>(), any::<bool>(), 0u8..2, swap_amount_strategy(), any::<bool>()),
-        (prop_oneof![3 => Just(LimitSel::None), 1 => limit_strategy()], prop_oneof![3 => Just(LimitSel::None), 1 => limit_strategy()], any::<bool>(), prop_oneof![12 => Just(0u8), 1 => Just(1u8), 1 => Just(2u8)]),
+        (prop_oneof![3 => Just(LimitSel::None), 1 => limit_strategy()], prop_oneof![3 => Just(LimitSel::None), 1 => limit_strategy()], any::<bool>(), prop_oneof![12 => Just(0u8), 1 => Just(1u8), 1 => Just(2u8)], prop_oneof![10 => Just(0u8), 1 => Just(1u8), 1 => Just(2u8), 1 => Just(3u8)]),
     )
-        .prop_map(|(hist1, spec2, mut pre2, ops2, (share_a, forward, trader, amount, exact_in), (limit_one, limit_two, v2, malformed))| {
+        .prop_map(|(hist1, spec2, mut pre2, ops2, (share_a, forward, trader, amount, exact_in), (limit_one, limit_two, v2, malformed, readonly_oracle))| {
             // positions of pool two are opened by the same LPs; position indexes are world-global, so the prelude's
             // `pos: u16::MAX` addresses the position just opened
             pre2.extend(ops2);
-            TwoHopCase { hist1, spec2, ops2: pre2, share_a, forward, trader, amount, exact_in, limit_one, limit_two, v2, malformed }
+            TwoHopCase { hist1, spec2, ops2: pre2, share_a, forward, trader, amount, exact_in, limit_one, limit_two, v2, malformed, readonly_oracle }
         })
         .boxed()
 }
